@@ -137,6 +137,12 @@ def handle (op : String) (args : List String) : Option String :=
       | some c, some m, some dev, some ino, some mode, some uid, some gid, some size =>
         showEntry (entryFromStat c m dev ino mode uid gid size [])
       | _, _, _, _, _, _, _, _ => "bad-arg"
+  | "c11.timespec", [n] => some <| match int? n with
+      | some ns =>
+        let t := timespecOfNs ns
+        let w := timeWords t
+        s!"{t.1} {t.2} {w.1} {w.2}"
+      | none => "bad-arg"
   | "c11.sort", keys => some <| match keys.mapM bytes? with
       | some ks =>
         let d : Dict := ks.map fun k => (k, Val.conflict none none none)
